@@ -13,6 +13,7 @@ equals neither neighbour's -- i.e. iff the key occurs more than once / exactly o
 so the two outputs partition the input, in order."""
 import z3
 from pyvc.api import *
+from pyvc.interp import PyExc
 from pyvc.values import _t
 from pyvc import smt, builtins as bi
 from contracts import lib_base
@@ -321,4 +322,61 @@ def iterconflicts(h):
         if getattr(ctx, 'after_loop', None) == 'rows':
             pre = ctx.pre_loop_out
             ctx.oblige('iterconflicts: the header first, once; nothing after the last row', z3.And(pre.len == 1, _t(row_eq(out_row(pre, 0), src_row(S, 0))), res.out.len == 0))
+    h.explore(body)
+
+
+# ------------------------------------------------------------------------------------------------ isunique
+@vc('C10.isunique', functions=[D + 'isunique', 'petl.util.base.itervalues'], props=['C10'],
+    assumptions=['single field given by name; rows long enough to have it; set through its contract (T6: membership modulo ==, i.e. equality -- '
+                 'not the hash -- decides)', 'counting lemmas (C07.cnt.lemmas); invariant rule with an early return'])
+def isunique(h):
+    """isunique(t, f) is False exactly when some value of f occurs twice (it returns at the first repeat), True otherwise:
+    so it is true exactly when duplicates(t, f) has no data rows."""
+    from contracts.lib_count import counting
+
+    def body(ctx):
+        box = {}
+
+        def C(ls=None):
+            if 'C' not in box:
+                box['C'] = counting(ctx, 'CV', lambda i: bi.canon(z3.Select(src_row(S, i).arr, box['vi'])), witness=True)
+            return box['C']
+
+        def inv(ls):
+            k = ls.k.t
+            kap, i = z3.Const('kap!u', smt.V), smt.fresh_int('i')
+            return z3.And(z3.ForAll([kap], z3.Select(box['vals'].has, kap) == (C()(kap, k) > 0)),
+                          z3.ForAll([i], z3.Implies(z3.And(1 <= i, i < k), C()(bi.canon(z3.Select(src_row(S, i).arr, box['vi'])), i) == 0)))
+        it = h.interp(ctx, loops={('petl.util.base.itervalues', 0): LoopSpec(invariant=inv, label='values')})
+        it.loop_specs[('petl.util.base.itervalues', 0)].rebind = lambda ls: box['vals'].havoc(it, 'vals')
+        real_asindices = closure_of(it, 'petl.util.base.asindices')
+
+        def spy(interp, args, kw, node):
+            r = interp.call_closure(real_asindices, args, kw, node)
+            box['vi'] = smt.ival(as_v(r.items[0]))
+            return r
+        it.summaries['petl.util.base.asindices'] = spy
+        it.symbolic_dicts = True
+        it.on_new_container = lambda c: box.setdefault('vals', c)
+        it.check_pulls = False
+        S = sym_table(ctx, 'S', nmin=1)
+        rows_are_sequences(ctx, S)
+        rectangular(ctx, S)
+        try:
+            r = it.call(closure_of(it, D + 'isunique'), [S, 'f'], {})
+        except PyExc as e:
+            ctx.oblige('isunique: only FieldSelectionError escapes', z3.BoolVal(e.kind == 'FieldSelectionError'), e.origin or '')
+            return
+        if 'C' not in box:
+            ctx.oblige('isunique: a table without data rows is unique', z3.BoolVal(r is True))
+            return
+        i, j = smt.fresh_int('i'), smt.fresh_int('j')
+        key = lambda x: bi.canon(z3.Select(src_row(S, x).arr, box['vi']))
+        if r is True:
+            ctx.oblige('isunique returns True only if no value occurs twice', z3.ForAll([i], z3.Implies(z3.And(1 <= i, i < S.n), C()(key(i), i) == 0)))
+        elif r is False:
+            ctx.oblige('isunique returns False only at a value that occurred before (a genuine repeat under ==)',
+                       z3.Exists([i, j], z3.And(1 <= i, i < j, j < S.n, key(i) == key(j))))
+        else:
+            ctx.oblige('isunique returns a bool', z3.BoolVal(False))
     h.explore(body)
